@@ -376,7 +376,7 @@ def distance(s1, s2, only_ub=False, **kwargs):
             d = min(array_min(vc), psi_shortest)
         else:
             d = min(dtw[i1 * length + min(c, c + s.window - 1) - skip], psi_shortest)
-    if s.adj_max_dist and d > s.adj_max_dist:
+    if d > s.adj_max_dist:
         d = inf
     d = result_fn(d)
     return d
@@ -510,7 +510,7 @@ def warping_paths(s1, s2, psi_neg=True, keep_int_repr=False, **kwargs):
                 dtw[ir, ic:ic-mic:-1] = -1
             d = vc_mic
     if keep_int_repr:
-        if s.adj_max_dist and d > s.adj_max_dist:
+        if d > s.adj_max_dist:
             d = inf
     else:
         if s.max_dist and d > s.max_dist:
